@@ -123,6 +123,41 @@ def wiring_scenarios():
            {"op": "reorg", "depth": 2, "blocks": [[], [D(1)], []], "to_mempool": True}, POLL, get(1, 1), get(2, 2), mine([P(1), D(2)]), ff(1, "each"),
            get(1, 1), get(2, 2), sub(1)]
     out.append(scen("e2e-reorg", CFG_A, ops, ["C04", "C01", "C02"]))
+    out += outage_scenarios()
+    return out
+
+
+def fault(method, on):
+    return {"op": "rpc_fault", "method": method, "on": on}
+
+
+AWAIT = {"op": "await_outage"}
+
+
+def outage_scenarios():
+    """C12 on the real daemon: the node stops answering (one RPC method, or everything) while the tower works; from the first
+    dropped RPC the API must answer 'service unavailable' (Flag event = that obligation); once the node answers again the
+    tower catches up by itself: the blocks mined meanwhile are processed, the interrupted submission is retried."""
+    out = []
+    # the outage starts at the getblockheader of a poll that was told about a new best block (getblockchaininfo still works)
+    # (a failing getblock is not part of this tier: SpvClient swallows the error, the tip is persisted although the block
+    # was not delivered - known finding F-C03-2 - and the tower's progress can then not be observed through its last known
+    # block; block download failures are judged in-process, event by event)
+    for method in ("getblockheader", "getblockchaininfo"):
+        ops = [reg(1), add(1, 1, valid(1)), add(1, 2, valid(2)), fault(method, True), mine([D(1)], poll=False), AWAIT,
+               add(1, 3, valid(3)), sub(1), get(1, 1), reg(2), fault(method, False), POLL,
+               get(1, 1), add(1, 3, valid(3)), sub(1), mine([D(2), P(1)]), get(1, 2), get(1, 1)]
+        out.append(scen("e2e-outage-%s" % method, CFG_A, ops, ["C12"]))
+    # the node goes away completely, two blocks (a breach each) are mined meanwhile
+    ops = [reg(1), add(1, 1, valid(1)), add(1, 2, valid(2)), {"op": "node", "up": False}, mine([D(1)], poll=False), AWAIT,
+           add(1, 3, valid(3)), sub(1), mine([D(2)], poll=False), {"op": "node", "up": True}, POLL,
+           get(1, 1), get(1, 2), add(1, 3, valid(3)), sub(1)]
+    out.append(scen("e2e-outage-down", CFG_A, ops, ["C12"]))
+    # the outage hits the submission of a penalty: the chain monitor is inside the Responder; the Carrier retries by itself
+    ops = [reg(1), add(1, 1, valid(1)), fault("sendrawtransaction", True), mine([D(1)], poll=False), AWAIT,
+           add(1, 3, valid(3)), sub(1), fault("sendrawtransaction", False), POLL, get(1, 1), add(1, 3, valid(3)), sub(1),
+           mine([P(1)]), get(1, 1)]
+    out.append(scen("e2e-outage-at-send", CFG_A, ops, ["C12", "C01"]))
     return out
 
 
